@@ -461,6 +461,7 @@ func cmdRun(args []string) int {
 	canary := fs.Bool("canary", false, "")
 	solver := fs.String("solver", "z3", "")
 	unwind := fs.Int("unwind", 300, "")
+	maxSteps := fs.Int("steps", 0, "step bound per path")
 	preempt := fs.Int("preempt", 2, "")
 	maporder := fs.String("maporder", "", "")
 	delay := fs.Int("delay", 0, "")
@@ -478,7 +479,7 @@ func cmdRun(args []string) int {
 			p[kv[:i]] = v
 		}
 	}
-	cfg := mkConfig(JobSpec{Entry: *entry, NoMerge: *nomerge, Solver: *solver, Unwind: *unwind, MaxPreempt: *preempt, MapOrder: *maporder}, p, "quick")
+	cfg := mkConfig(JobSpec{Entry: *entry, NoMerge: *nomerge, Solver: *solver, Unwind: *unwind, MaxSteps: *maxSteps, MaxPreempt: *preempt, MapOrder: *maporder}, p, "quick")
 	cfg.Trace = *trace
 	cfg.MaxDelay = *delay
 	cfg.DelayBounded = *delay > 0
